@@ -139,6 +139,17 @@ impl Shape for ExtentS {
         extent_view(&pairs(t))
     }
 }
+/// an extent by its source: what `ToExtent` / a carrier hands out is an `Option<Extent>`
+struct ExtentSrcS;
+impl Shape for ExtentSrcS {
+    type Out = Option<emit::Extent>;
+    fn name() -> String {
+        "extentsrc".into()
+    }
+    fn build(t: &Value) -> Self::Out {
+        extent_from_source(t)
+    }
+}
 impl Shape for SpanCtxtS {
     type Out = emit::span::SpanCtxt;
     fn name() -> String {
@@ -262,6 +273,7 @@ fn shape_of(t: &Value) -> String {
     let op = t["op"].as_str().unwrap();
     match op {
         "arr" => format!("arr{}", t["kvs"].as_array().unwrap().len()),
+        "extent" if t.get("src").is_some() => "extentsrc".to_string(),
         "and" => format!("and({},{})", shape_of(&t["l"]), shape_of(&t["r"])),
         "opt" | "ref" | "box" | "arc" | "erased" | "dedup" | "asmap" | "span" | "metric" | "span_with" | "metric_with" => {
             format!("{op}({})", shape_of(&t["t"]))
@@ -389,12 +401,41 @@ fn registry() -> HashMap<String, Runner> {
     few_leaves!(d2_and_l, (m));
     few_leaves!(d2_unary2, (m));
     all_leaves!(reg_views, (m));
+    reg::<ExtentSrcS>(m);
+    reg_unary!(ExtentSrcS, (m));
+    reg::<AndS<ExtentSrcS, PairS>>(m);
+    reg::<AndS<ExtentSrcS, ArrS<3>>>(m);
+    reg::<AndS<PairS, ExtentSrcS>>(m);
+    reg::<AndS<ArrS<3>, ExtentSrcS>>(m);
+    reg::<AndS<ExtentSrcS, ExtentS>>(m);
+    reg::<AndS<ExtentSrcS, CtxtS>>(m);
     reg::<SpanWithS<PairS>>(m);
     reg::<SpanWithS<ArrS<3>>>(m);
     reg::<MetricWithS<PairS>>(m);
     reg::<MetricWithS<ArrS<3>>>(m);
     reg::<DedupS<MetricWithS<ArrS<3>>>>(m);
     map
+}
+
+/// `extent:<src>:<bounds given>` for every extent leaf that names its source
+fn count_extent_sources(t: &Value, seen: &mut BTreeMap<String, u64>) {
+    if t["op"] == "extent" {
+        if let Some(src) = t.get("src").and_then(|s| s.as_str()) {
+            let given = |f: &str| if t[f].as_i64() == Some(0) { "-" } else { "x" };
+            *seen.entry(format!("extent:{src}:{}{}", given("a"), given("b"))).or_default() += 1;
+        }
+    }
+    for f in ["t", "l", "r"] {
+        if t.get(f).map_or(false, |c| c.is_object()) {
+            count_extent_sources(&t[f], seen);
+        }
+    }
+}
+
+/// Does the tree hold a leaf whose keys the harness supplies?
+fn has_supplied_keys(t: &Value) -> bool {
+    matches!(t["op"].as_str(), Some("pair" | "arr" | "slice" | "btree" | "hash" | "ctxt"))
+        || ["t", "l", "r"].iter().any(|f| t.get(*f).map_or(false, |c| c.is_object() && has_supplied_keys(c)))
 }
 
 fn main() {
@@ -409,11 +450,12 @@ fn main() {
     let mut n_static = 0u64;
     let mut ops_seen: BTreeMap<String, u64> = BTreeMap::new();
     let mut other_resolution = 0u64;
+    let mut forms_seen: BTreeMap<String, u64> = BTreeMap::new();
     for_each_case(&args[1], |_, case| {
         let tree = &case["tree"];
         let (applies, alien) = resolution_applies(tree);
         if alien && drift.len() < 20 {
-            drift.push(json!({"what": "a ctxt snapshot holds a pair no pushed frame has", "tree": tree}));
+            drift.push(json!({"what": "a ctxt snapshot holds a pair no pushed frame has / an extent holds something other than its bounds", "tree": tree}));
         }
         if !applies {
             other_resolution += 1;
@@ -426,11 +468,12 @@ fn main() {
         for w in shape.split(|c: char| !(c.is_alphanumeric() || c == '_')).filter(|w| !w.is_empty()) {
             *ops_seen.entry(w.to_string()).or_default() += 1;
         }
-        // type-erased, dynamic
-        let dynamic = catch(|| observe(&interp(tree), &keys));
-        // generic, static
-        let stat = reg.get(&shape).map(|run| catch(|| run(tree, &keys)));
-        let mut judge = |path: &str, o: &Result<Obs, String>, rep: &mut Report| match o {
+        count_extent_sources(tree, &mut ops_seen);
+        // every key storage form the specification names (spec/Props.tla KeyForms); a tree
+        // none of whose keys the harness supplies only has the lookup keys to vary
+        let forms: Vec<KeyForm> = case["keyforms"].as_array().map_or(vec![KeyForm::Literal], |a| a.iter().map(|f| KeyForm::parse(f.as_str().unwrap())).collect());
+        let supplied = has_supplied_keys(tree);
+        let mut judge = |path: &str, o: &Result<Obs, String>, rep: &mut Report, drift: &mut Vec<Value>| match o {
             Ok(o) => {
                 let (bad, dr) = compare(o, case, &mut rep.checks);
                 if !bad.is_empty() {
@@ -449,18 +492,33 @@ fn main() {
             }
             Err(p) => rep.mismatch(&format!("panic ({path})"), case, json!({"panic": p, "shape": shape})),
         };
-        judge("erased", &dynamic, &mut rep);
-        if let Some(s) = &stat {
-            n_static += 1;
-            judge("generic", s, &mut rep);
-            if let (Ok(a), Ok(b)) = (&dynamic, s) {
-                rep.checks += 1;
-                if !same_modulo_order(a, b, ordered) {
-                    rep.mismatch("erased and generic observations differ", case, json!({"shape": shape}));
+        for form in forms {
+            if !supplied && !matches!(form, KeyForm::Literal | KeyForm::SharedBuf) {
+                continue;
+            }
+            set_key_form(form, &keys);
+            *forms_seen.entry(format!("{form:?}")).or_default() += 1;
+            let tag = |path: &str| if form == KeyForm::Literal { path.to_string() } else { format!("{path}, keys {form:?}") };
+            // type-erased, dynamic
+            let dynamic = catch(|| observe(&interp(tree), &keys));
+            judge(&tag("erased"), &dynamic, &mut rep, &mut drift);
+            // generic, static (`&'static str` keys: an allocation each, or slices of the shared buffer)
+            if matches!(form, KeyForm::Literal | KeyForm::SharedBuf) {
+                if let Some(s) = reg.get(&shape).map(|run| catch(|| run(tree, &keys))) {
+                    n_static += 1;
+                    judge(&tag("generic"), &s, &mut rep, &mut drift);
+                    if let (Ok(a), Ok(b)) = (&dynamic, &s) {
+                        rep.checks += 1;
+                        if !same_modulo_order(a, b, ordered) {
+                            rep.mismatch("erased and generic observations differ", case, json!({"shape": shape, "keys": format!("{form:?}")}));
+                        }
+                    }
                 }
             }
         }
+        set_key_form(KeyForm::Literal, &keys);
     });
+    rep.extra.insert("key_forms_seen".into(), json!(forms_seen));
     rep.extra.insert("static_cases".into(), json!(n_static));
     rep.extra.insert("cases_of_another_ctxt_resolution".into(), json!(other_resolution));
     rep.extra.insert("static_shapes".into(), json!(reg.len()));
